@@ -252,17 +252,10 @@ func (i *interpreter) valStruct(fr *frame, ctx value, sp iface, fields []value) 
 			unsup("validation: field pointer missing")
 		}
 		fptr, _ := fp.v.(*value)
-		idx := -1
-		for k := len(st) - 1; k >= 0; k-- {
-			if &st[k] == fptr {
-				idx = k
-				break
-			}
-		}
-		if idx < 0 {
+		ft, tag := i.valFindField(stT, st, fptr)
+		if ft == nil {
 			unsup("validation: field pointer not found in struct %s", pt.Elem())
 		}
-		ft := stT.Field(idx)
 		rules, _ := frs[1].([]value)
 		val := i.asIface(ft.Type(), *fptr)
 		err := i.valValidate(fr, ctx, true, val, rules)
@@ -279,7 +272,7 @@ func (i *interpreter) valStruct(fr *frame, ctx value, sp iface, fields []value) 
 			continue
 		}
 		name := ft.Name()
-		if tag := reflect.StructTag(stT.Tag(idx)).Get("json"); tag != "" && tag != "-" {
+		if tag := reflect.StructTag(tag).Get("json"); tag != "" && tag != "-" {
 			if cps := strings.SplitN(tag, ",", 2); cps[0] != "" {
 				name = cps[0]
 			}
@@ -290,6 +283,35 @@ func (i *interpreter) valStruct(fr *frame, ctx value, sp iface, fields []value) 
 		return iface{t: i.valErrorsType(), v: errs}
 	}
 	return iface{}
+}
+
+// valFindField: findStructField of the library (fields from last to first, anonymous structs searched recursively).
+func (i *interpreter) valFindField(stT *types.Struct, st structure, fptr *value) (*types.Var, string) {
+	for k := len(st) - 1; k >= 0; k-- {
+		f := stT.Field(k)
+		if &st[k] == fptr {
+			return f, stT.Tag(k)
+		}
+		if f.Anonymous() {
+			ft := f.Type()
+			cell := st[k]
+			if p, ok := ft.Underlying().(*types.Pointer); ok {
+				pv, _ := cell.(*value)
+				if pv == nil {
+					continue
+				}
+				ft, cell = p.Elem(), *pv
+			}
+			if inner, ok := ft.Underlying().(*types.Struct); ok {
+				if is, ok := cell.(structure); ok {
+					if v, tag := i.valFindField(inner, is, fptr); v != nil {
+						return v, tag
+					}
+				}
+			}
+		}
+	}
+	return nil, ""
 }
 
 // valIndirect / valIsEmpty: util.go
